@@ -8,7 +8,8 @@
 (*     dual-number meaning (DEval, M-layer)" at every point of the box and *)
 (*     for all three non-smoothness settings; every failure is reported as *)
 (*     a design-level class (the verdict on the code is the judge's),      *)
-(* and prints every complete pair as one JSON line for the driver.         *)
+(* and prints every complete pair, with its object-sharing variants, as    *)
+(* one JSON line for the driver.                                           *)
 (***************************************************************************)
 EXTENDS C10_Diff, Json
 CONSTANT Tier
@@ -201,9 +202,20 @@ ModelVerdicts ==
               ELSE IF same("discontinuous", "none") THEN mN ELSE ModelVerdict("discontinuous")
     IN << mN, mC, mD >>
 
+\* Object sharing of the pair: rep = the subtrees that occur more than once (in the expression
+\* and the variable together), shs = the sharing variants beyond "nothing shared", each the
+\* indices into rep of the subtrees that are ONE Python object.  The driver builds the pair once
+\* per variant; the meaning, hence the judgement, is the same for all of them.
+ShareCase(e, v) ==
+    LET rep == SetToSeq(Repeated(e, v))
+        idx(SS) == SetToSeq({ i \in 1..Len(rep) : rep[i] \in SS })
+        vs == SetToSeq(ShareVariants(e, v, ~Quick) \ {{}})
+    IN [rep |-> rep, shs |-> [k \in 1..Len(vs) |-> idx(vs[k])]]
+
 Emit ==
     Complete =>
-      /\ PrintT(ToJson([e |-> tree, v |-> var]))
+      /\ LET sc == ShareCase(tree, var) IN
+         PrintT(ToJson([e |-> tree, v |-> var, rep |-> sc.rep, shs |-> sc.shs]))
       /\ LET mvs == ModelVerdicts IN
          \A k \in 1..Len(NSs) :
             mvs[k].v \in {"OK", "SKIP"}
